@@ -32,8 +32,12 @@ pub fn show_session(r: &Result<netconf::Session<mt::MemTransport>, netconf::Erro
 
 /// establish over a fresh in-memory transport; returns (outcome, does the client's hello advertise base:1.1)
 pub async fn establish(hello: &str) -> (String, bool) {
+    establish_bytes(hello.as_bytes()).await
+}
+
+pub async fn establish_bytes(hello: &[u8]) -> (String, bool) {
     let (t, peer) = mt::new();
-    peer.deliver(hello.to_string());
+    peer.deliver(hello.to_vec());
     let r = tokio::time::timeout(Duration::from_secs(5), netconf::Session::verif_new(t)).await;
     let adv11 = peer
         .sent()
@@ -506,6 +510,48 @@ pub fn main(opts: &Opts) {
         });
         if sink.samples.len() < 5 {
             sink.sample(format!("{text} -> {out}"));
+        }
+    }
+    // a hello that is not valid UTF-8 is not a well-formed document, wherever the offending bytes are
+    // (a comment, a capability text, between elements, the session-id): no session
+    if opts.replay.is_none() {
+        let good = mt::hello(&[mt::CAP_BASE10, mt::CAP_BASE11], 4);
+        let bads: [&[u8]; 5] = [b"\xe9", b"\xff\xfe", b"\xc3", b"\xed\xa0\x80", b"\xf8\x88\x80\x80\x80"];
+        let spots: Vec<(&str, usize)> = vec![
+            ("before-root", 0),
+            ("in-capability", good.find("urn:").unwrap_or(0) + 4),
+            ("between-elements", good.find("<session-id>").unwrap_or(0)),
+            ("in-session-id", good.find("</session-id>").unwrap_or(0)),
+            ("after-root", good.find("]]>]]>").unwrap_or(good.len())),
+        ];
+        for (tag, at) in &spots {
+            for (bi, bad) in bads.iter().enumerate() {
+                for comment in [false, true] {
+                    let mut v = good.as_bytes()[..*at].to_vec();
+                    if comment && *tag != "in-capability" && *tag != "in-session-id" {
+                        v.extend_from_slice(b"<!-- r");
+                        v.extend_from_slice(bad);
+                        v.extend_from_slice(b"seau -->");
+                    } else {
+                        v.extend_from_slice(bad);
+                    }
+                    v.extend_from_slice(&good.as_bytes()[*at..]);
+                    let rt = tokio::runtime::Builder::new_current_thread().enable_all().build().unwrap();
+                    let (out, _) = rt.block_on(establish_bytes(&v));
+                    let case = format!("notutf8;{tag};{bi};{}", comment as u8);
+                    sink.direct(
+                        &case,
+                        if out.starts_with("ok") {
+                            "violation session-established-from-a-hello-that-is-not-utf8".into()
+                        } else if out == "timeout" {
+                            "violation establishment-does-not-return".into()
+                        } else {
+                            "ok".into()
+                        },
+                    );
+                    sink.count("notutf8.cases");
+                }
+            }
         }
     }
     sink.write(opts, "hello");
